@@ -520,11 +520,107 @@ pub fn check(ctx: &mut Ctx) {
 		Sub-check typed-results: batches of 1..5 entries decoded into a struct type, the reply (any permutation) answering some entries with values that do not decode (string, wrong shape, null) or error objects: the call fails as a whole, or returns n entries with every decodable entry at its own position and every undecodable one an error. \
 		Non-trivial = n >= 2 and the reply is not the identity order (positional) / contains an undecodable value (typed); distinct by case value."
 		.into();
-	ctx.assumptions = vec!["the two in-flight batches of the WS scenario use disjoint id ranges (notifications advance the allocator in between), so a subset reply of one cannot be the full reply of the other".into()];
+	ctx.assumptions = vec!["sub-check positional keeps notifications between its two in-flight batches (a leftover of the time before finding 24 was repaired); sub-check two-batches-in-flight issues them back to back".into()];
 	ctx.run_sub(&Positional);
 	ctx.run_sub(&Typed);
+	ctx.run_sub(&TwoBatches);
 }
 
 pub fn replay(file: &serde_json::Value) -> Option<i32> {
-	replay_with(&Positional, file, "C12").or_else(|| replay_with(&Typed, file, "C12"))
+	replay_with(&Positional, file, "C12").or_else(|| replay_with(&Typed, file, "C12")).or_else(|| replay_with(&TwoBatches, file, "C12"))
+}
+
+// ---------------------------------------------------------------------------------------------
+// two batches (and calls) in flight together, issued back to back: a reply for a part of one is not the other's
+// ---------------------------------------------------------------------------------------------
+
+#[derive(Clone, Debug, Serialize, Deserialize)]
+pub struct TwoBatchCase {
+	pub a: u8,
+	pub b: u8,
+	/// single calls issued between the two batches (0 = back to back)
+	pub between: u8,
+	/// which entries of the first batch the server answers (bit i = entry i), never all of them
+	pub answered: u8,
+	pub id_kind: IdK,
+}
+
+pub struct TwoBatches;
+
+impl SubCheck for TwoBatches {
+	type Case = TwoBatchCase;
+	fn name(&self) -> &'static str {
+		"two-batches-in-flight"
+	}
+	fn cases(&self, tier: Tier) -> u32 {
+		tier.pick(20_000, 400_000)
+	}
+	fn strategy(&self, _tier: Tier) -> BoxedStrategy<TwoBatchCase> {
+		(2u8..6, 1u8..5, prop_oneof![3 => Just(0u8), 1 => 1u8..3], any::<u8>(), prop_oneof![Just(IdK::Number), Just(IdK::String)]).prop_map(|(a, b, between, answered, id_kind)| TwoBatchCase { a, b, between, answered, id_kind }).boxed()
+	}
+	fn run(&self, case: &TwoBatchCase, obs: &mut Obs) {
+		let rt = rt();
+		rt.block_on(async {
+			crate::panics::clear_local();
+			let (a, b) = (case.a.clamp(2, 5) as usize, case.b.clamp(1, 4) as usize);
+			let mut w = World::new(ClientCfg { id_kind: case.id_kind, ..ClientCfg::default() });
+			w.spawn_batch(a);
+			settle().await;
+			for _ in 0..case.between {
+				w.spawn_call();
+				settle().await;
+			}
+			w.spawn_batch(b);
+			let second = w.ops.len() - 1;
+			settle().await;
+			w.read_wire();
+			let desc = |w: &World| format!("case={case:?} first batch ids {:?}, second batch ids {:?}", w.ops[0].wire_ids, w.ops[second].wire_ids);
+			// every id on the wire belongs to one outstanding request only
+			let mut all: Vec<String> = w.ops.iter().flat_map(|o| o.wire_ids.iter().flatten().map(|v| v.to_string())).collect();
+			let n_ids = all.len();
+			all.sort();
+			all.dedup();
+			obs.check(all.len() == n_ids, "c12/ws-batch-ids-shared-with-another-request", || desc(&w));
+			// the server answers a proper part of the first batch
+			let part: Vec<usize> = (0..a).filter(|i| (case.answered >> i) & 1 == 1).collect();
+			let part = if part.len() == a { part[1..].to_vec() } else { part };
+			if part.is_empty() {
+				obs.class("two-batches:nothing-answered");
+			} else {
+				w.answer_batch(0, &part, &[]);
+				settle().await;
+			}
+			let outs = w.outcomes().await;
+			// nothing of that reply belongs to the second batch
+			match &outs[second] {
+				Some(Outcome::BatchOk(entries)) => obs.fail("c12/ws-entry-filled-with-another-entrys-answer", format!("the second batch completed with {entries:?} although the server has only answered entries {part:?} of the first one; {}", desc(&w))),
+				Some(Outcome::BatchCounts(d)) => obs.fail("c12/ws-counts-mismatch", format!("{d}; {}", desc(&w))),
+				_ => {}
+			}
+			if let Some(Outcome::BatchOk(entries)) = &outs[0] {
+				// the first call did not fail as a whole: the entries the server left out are errors, the others their own
+				for (i, e) in entries.iter().enumerate() {
+					let own = w.ops[0].stamped[i].clone();
+					match own {
+						Some(s) => obs.check(*e == s, "c12/ws-entry-not-positional", || format!("entry {i} = {e:?}, stamped {s:?}; {}", desc(&w))),
+						None => obs.check(e.is_err(), "c12/ws-entry-invented", || format!("entry {i} = {e:?} was never answered; {}", desc(&w))),
+					};
+				}
+				obs.check(entries.len() == a, "c12/ws-shorter-list", || desc(&w));
+			}
+			// if the connection is still up the second batch can still be answered in full and gets its own answers
+			if w.mc.client.is_connected() && outs[second].is_none() {
+				let order: Vec<usize> = (0..b).rev().collect();
+				w.answer_batch(second, &order, &[]);
+				settle().await;
+				let outs2 = w.outcomes().await;
+				let want: Vec<Stamp> = w.ops[second].stamped.iter().map(|s| s.clone().unwrap()).collect();
+				obs.check(outs2[second] == Some(Outcome::BatchOk(want.clone())), "c12/ws-other-batch-wrong", || format!("{:?} vs {want:?}; {}", outs2[second], desc(&w)));
+			}
+			let panics = crate::panics::take_local();
+			obs.check(panics.is_empty(), "c12/background-panic", || format!("{panics:?}; {}", desc(&w)));
+			obs.nontrivial();
+			obs.class(if case.between == 0 { "two-batches:back-to-back" } else { "two-batches:calls-in-between" });
+		});
+	}
 }
